@@ -1349,5 +1349,14 @@ mod scale_function {
 }
 
 const fn weighted_average(x1: f64, w1: f64, x2: f64, w2: f64) -> f64 {
-    (x1 * w1 + x2 * w2) / (w1 + w2)
+    let avg = (x1 * w1 + x2 * w2) / (w1 + w2);
+    // rounding can push the average an ulp outside [x1, x2] (always, for x1 == x2): keep it between its endpoints
+    let (lo, hi) = if x1 <= x2 { (x1, x2) } else { (x2, x1) };
+    if avg < lo {
+        lo
+    } else if avg > hi {
+        hi
+    } else {
+        avg
+    }
 }
